@@ -70,7 +70,9 @@ func (s *Solver) send(l string) {
 }
 
 func (s *Solver) ask(l string) []string {
-	s.send(l)
+	if l != "" {
+		s.send(l)
+	}
 	s.send(`(echo "<<END>>")`)
 	s.in.Flush()
 	var res []string
@@ -159,7 +161,7 @@ func (s *Solver) Check(pcs []*Term, extra *Term) string {
 	} else {
 		s.extra = false
 	}
-	res := s.ask("(check-sat)")
+	res := s.ask(s.checkCmd(pcs, extra))
 	s.nq++
 	d := time.Since(t0)
 	s.dur += d
@@ -189,6 +191,131 @@ func (s *Solver) Check(pcs []*Term, extra *Term) string {
 		s.nunk++
 	}
 	return r
+}
+
+type sideResult struct {
+	verdict string
+	model   map[*Term]uint64
+}
+
+// Sides decides pcs ∧ x for every x in extras in ONE round trip (pipe
+// latency, not solving, dominates small queries) and, for satisfiable sides,
+// returns a model of the bit-vector / Bool variables.
+func (s *Solver) Sides(pcs []*Term, extras []*Term, wantModel bool) []sideResult {
+	t0 := time.Now()
+	s.align(pcs)
+	s.extra = false
+	var vars []*Term
+	if wantModel {
+		for _, x := range extras {
+			s.define(x)
+		}
+		for _, v := range s.allVars {
+			if v.s.K == 'b' || v.s.K == 'v' {
+				vars = append(vars, v)
+			}
+		}
+	}
+	var gv strings.Builder
+	if len(vars) > 0 {
+		gv.WriteString("(get-value (")
+		for _, v := range vars {
+			gv.WriteString(v.ref())
+			gv.WriteByte(' ')
+		}
+		gv.WriteString("))")
+	}
+	for _, x := range extras {
+		s.define(x)
+		s.send("(push 1)")
+		s.send(fmt.Sprintf("(assert %s)", x.ref()))
+		s.send(s.checkCmd(pcs, x))
+		s.send(`(echo "<<M>>")`)
+		if gv.Len() > 0 {
+			s.send(gv.String())
+		}
+		s.send("(pop 1)")
+		s.send(`(echo "<<Q>>")`)
+	}
+	lines := s.ask("")
+	out := make([]sideResult, 0, len(extras))
+	cur := sideResult{verdict: "unknown"}
+	inModel := false
+	var mtxt []string
+	for _, l := range lines {
+		t := strings.Trim(l, `"`)
+		switch {
+		case t == "<<M>>":
+			inModel = true
+			mtxt = nil
+		case t == "<<Q>>":
+			if cur.verdict == "sat" && len(vars) > 0 {
+				txt := strings.Join(mtxt, " ")
+				if !strings.Contains(txt, "(error") {
+					vals := parseValues(txt)
+					if len(vals) == len(vars) {
+						cur.model = make(map[*Term]uint64, len(vars))
+						for i, v := range vars {
+							cur.model[v] = vals[i].u
+						}
+					}
+				}
+			}
+			out = append(out, cur)
+			cur = sideResult{verdict: "unknown"}
+			inModel = false
+		case inModel:
+			mtxt = append(mtxt, l)
+		default:
+			if strings.Contains(l, "(error") {
+				cur.verdict = "error"
+				fmt.Fprintln(os.Stderr, "SOLVER ERROR:", l)
+			} else if (l == "sat" || l == "unsat" || l == "unknown") && cur.verdict != "error" {
+				cur.verdict = l
+			}
+		}
+	}
+	for len(out) < len(extras) {
+		out = append(out, sideResult{verdict: "unknown"})
+	}
+	d := time.Since(t0)
+	s.dur += d
+	if d > s.maxq {
+		s.maxq = d
+	}
+	for i := range out {
+		s.nq++
+		switch out[i].verdict {
+		case "sat":
+			s.nsat++
+		case "unsat":
+			s.nunsat++
+		case "error":
+			s.nerr++
+			out[i].verdict = "unknown"
+		default:
+			s.nunk++
+		}
+	}
+	return out
+}
+
+// checkCmd picks the tactic: pure bit-vector queries go through z3's
+// bit-blasting SAT pipeline (4x faster than the incremental SMT core on the
+// string kernels); anything with Int or FloatingPoint terms uses check-sat.
+func (s *Solver) checkCmd(pcs []*Term, extra *Term) string {
+	if strings.Contains(s.bin, "cvc5") || os.Getenv("VF_PLAINCHECK") != "" {
+		return "(check-sat)"
+	}
+	if extra != nil && !extra.pureBV() {
+		return "(check-sat)"
+	}
+	for _, p := range pcs {
+		if !p.pureBV() {
+			return "(check-sat)"
+		}
+	}
+	return "(check-sat-using (then simplify bit-blast sat))"
 }
 
 func (s *Solver) Done() {
